@@ -508,6 +508,46 @@ impl WaitForGraph {
         cycles
     }
 
+    /// Shortest cycle through `start` made of at most `max_len` transactions.
+    pub fn shortest_cycle_through(&self, start: u64, max_len: usize) -> Option<Vec<u64>> {
+        let edges = self.edges.read();
+        let mut parent: HashMap<u64, u64> = HashMap::new();
+        let mut depth: HashMap<u64, usize> = HashMap::new();
+        let mut queue = std::collections::VecDeque::new();
+        depth.insert(start, 0);
+        queue.push_back(start);
+
+        while let Some(current) = queue.pop_front() {
+            let d = depth[&current];
+            // the path start..=current holds d + 1 transactions
+            if d + 1 > max_len {
+                continue;
+            }
+            let Some(neighbors) = edges.get(&current) else {
+                continue;
+            };
+            for &next in neighbors {
+                if next == start {
+                    let mut cycle = vec![current];
+                    let mut tx = current;
+                    while tx != start {
+                        tx = parent[&tx];
+                        cycle.push(tx);
+                    }
+                    cycle.reverse();
+                    return Some(cycle);
+                }
+                if !depth.contains_key(&next) {
+                    depth.insert(next, d + 1);
+                    parent.insert(next, current);
+                    queue.push_back(next);
+                }
+            }
+        }
+
+        None
+    }
+
     /// Check if adding an edge would create a cycle.
     ///
     /// Useful for deadlock prevention: reject lock acquisition that would cause deadlock.
@@ -738,10 +778,28 @@ impl DeadlockDetector {
         let duration_us = start.elapsed().as_micros() as u64;
 
         // Filter and collect valid cycles
-        let valid_cycles: Vec<Vec<u64>> = cycles
-            .into_iter()
-            .filter(|c| c.len() <= self.config.max_cycle_length)
-            .collect();
+        let max_len = self.config.max_cycle_length;
+        let (mut valid_cycles, too_long): (Vec<Vec<u64>>, Vec<Vec<u64>>) =
+            cycles.into_iter().partition(|c| c.len() <= max_len);
+
+        // The search reports one cycle per back edge. When it walked the long
+        // way round first, a shorter cycle through the same transactions was
+        // met as a cross edge and is not among the reported ones; dropping the
+        // long cycle would then leave a deadlock within the limit unreported
+        // for as long as the graph does not change. Look for one.
+        for long in &too_long {
+            for &tx in long {
+                if let Some(cycle) = self.graph.shortest_cycle_through(tx, max_len) {
+                    let members: HashSet<u64> = cycle.iter().copied().collect();
+                    let known = valid_cycles
+                        .iter()
+                        .any(|c| c.len() == cycle.len() && c.iter().all(|t| members.contains(t)));
+                    if !known {
+                        valid_cycles.push(cycle);
+                    }
+                }
+            }
+        }
 
         for cycle in &valid_cycles {
             self.stats.update_max_cycle(cycle.len());
